@@ -226,6 +226,10 @@ pub fn build_2d_grid<T: CoordsFloat>(
     manager: AttrStorageManager,
 ) -> CMap2<T> {
     let map: CMap2<T> = CMap2::new_with_undefined_attributes(4 * n_square_x * n_square_y, manager);
+    if n_square_x == 0 || n_square_y == 0 {
+        // no cell to build: return the empty map, as the 3D builder does
+        return map;
+    }
 
     // init beta functions
     (1..=(4 * n_square_x * n_square_y) as DartIdType)
@@ -333,6 +337,10 @@ pub fn build_2d_splitgrid<T: CoordsFloat>(
     manager: AttrStorageManager,
 ) -> CMap2<T> {
     let map: CMap2<T> = CMap2::new_with_undefined_attributes(6 * n_square_x * n_square_y, manager);
+    if n_square_x == 0 || n_square_y == 0 {
+        // no cell to build: return the empty map, as the 3D builder does
+        return map;
+    }
 
     // init beta functions
     (1..=(6 * n_square_x * n_square_y) as DartIdType)
